@@ -28,6 +28,7 @@ import (
 	"git.metabarcoding.org/obitools/obitools4/obitools4/pkg/obitools/obiannotate"
 	"git.metabarcoding.org/obitools/obitools4/obitools4/pkg/obitools/obiconvert"
 	"git.metabarcoding.org/obitools/obitools4/obitools4/pkg/obitools/obigrep"
+	"git.metabarcoding.org/obitools/obitools4/obitools4/pkg/obitools/obimultiplex"
 	"git.metabarcoding.org/obitools/obitools4/obitools4/pkg/obitools/obipairing"
 	"git.metabarcoding.org/obitools/obitools4/obitools4/pkg/obitools/obipcr"
 	"git.metabarcoding.org/obitools/obitools4/obitools4/pkg/obitools/obisummary"
@@ -95,6 +96,17 @@ func makeRecords(withQual bool) obiseq.BioSequenceSlice {
 		seq.SetAttribute("tag", fmt.Sprintf("t%d", i%2))
 		sl = append(sl, seq)
 	}
+	if !withQual {
+		// two circular genomes linearised INSIDE their forward priming site (amplicon found only
+		// through the wrap-around region of a circular template)
+		for i := 0; i < 2; i++ {
+			body := fwdPrimer[6:] + string(dna(20+3*i, 500+i)) + rc(revPrimer) + string(dna(15, 600+i)) + fwdPrimer[:6]
+			seq := obiseq.NewBioSequence(fmt.Sprintf("circ%d", i), []byte(body), "")
+			seq.SetAttribute("count", 1)
+			seq.SetAttribute("tag", "t0")
+			sl = append(sl, seq)
+		}
+	}
 	return sl
 }
 
@@ -116,6 +128,38 @@ func makePairs() (obiseq.BioSequenceSlice, obiseq.BioSequenceSlice) {
 		r = append(r, obiseq.NewBioSequenceWithQualities(fmt.Sprintf("p%d", i), b, "", qb))
 	}
 	return f, r
+}
+
+// reads of a two-sample sheet: tag + forward primer + barcode + rc(reverse primer) + rc(tag), in both
+// orientations, one read with an unknown tag, one without priming site
+func makeMultiplexReads() obiseq.BioSequenceSlice {
+	sl := obiseq.MakeBioSequenceSlice()
+	tags := []string{"aattaac", "gaagtag", "cccccct"}
+	for i := 0; i < 6; i++ {
+		tag := tags[i%3]
+		bc := string(dna(18+i, 300+i))
+		read := tag + fwdPrimer + bc + rc(revPrimer) + rc(tag)
+		if i%2 == 1 {
+			read = rc(read)
+		}
+		if i == 5 {
+			read = string(dna(60, 999))
+		}
+		sl = append(sl, obiseq.NewBioSequence(fmt.Sprintf("read%d", i), []byte(read), ""))
+	}
+	return sl
+}
+
+func multiplexSheet() string {
+	dir := os.Getenv("VERIF_WORKDIR")
+	if dir == "" {
+		dir = os.TempDir()
+	}
+	fn := fmt.Sprintf("%s/c05_ngsfilter_%d.txt", dir, os.Getpid())
+	txt := "exp  s1  aattaac  " + fwdPrimer + "  " + revPrimer + "  F  @\n" +
+		"exp  s2  gaagtag  " + fwdPrimer + "  " + revPrimer + "  F  @\n"
+	os.WriteFile(fn, []byte(txt), 0o644)
+	return fn
 }
 
 func source(recs obiseq.BioSequenceSlice, batch int, paired bool) obiiter.IBioSequence {
@@ -216,6 +260,8 @@ func prepare(p param) {
 		parse(obipcr.OptionSet, p.Args)
 	case "summary":
 		parse(obisummary.OptionSet, p.Args)
+	case "multiplex":
+		parse(obimultiplex.OptionSet, append([]string{"-t", multiplexSheet()}, p.Args...))
 	default:
 		parse(obiconvert.OptionSet, p.Args)
 	}
@@ -241,6 +287,12 @@ func body(p param) string {
 		return render(paired)
 	case "pcr":
 		amp, err := obipcr.CLIPCR(source(makeRecords(false), p.Batch, false))
+		if err != nil {
+			return "error: " + err.Error()
+		}
+		return render(amp)
+	case "multiplex":
+		amp, err := obimultiplex.IExtractBarcode(source(makeMultiplexReads(), p.Batch, false))
 		if err != nil {
 			return "error: " + err.Error()
 		}
@@ -291,6 +343,9 @@ func scenarios() []param {
 		{Scn: "pairing", Args: []string{"--min-overlap", "10"}},
 		{Scn: "pairing", Args: []string{"--min-overlap", "10", "--exact-mode"}},
 		{Scn: "pcr", Args: []string{"--forward", fwdPrimer, "--reverse", revPrimer, "-e", "1", "-l", "5", "-L", "60"}},
+		{Scn: "pcr", Args: []string{"--forward", fwdPrimer, "--reverse", revPrimer, "-e", "1", "-l", "5", "-L", "60", "--circular"}},
+		{Scn: "multiplex", Args: []string{"--keep-errors"}},
+		{Scn: "multiplex", Args: []string{"-e", "1"}},
 		{Scn: "count"},
 		{Scn: "summary"},
 		{Scn: "write-fasta"},
@@ -388,14 +443,14 @@ func TestVerifC05(t *testing.T) {
 		if si != r.Shard {
 			continue
 		}
-		if !verifkit.Thorough() && sc.Scn != "pairing" && sc.Scn != "pcr" {
+		if !verifkit.Thorough() && sc.Scn != "pairing" && sc.Scn != "pcr" && sc.Scn != "multiplex" {
 			// two workers are between a shared load and store at the same time only after two deviations
 			// (the feeder hands out the next batch, the other worker takes it): one bound-2 job per scenario
 			p := sc
 			p.Workers, p.Batch, p.Policy = 2, 3, 0
 			jobs = append(jobs, job{p, 2, 0, 25000})
 		}
-		heavy := sc.Scn == "pairing" || sc.Scn == "pcr" // long executions (alignment / C matcher under instrumentation)
+		heavy := sc.Scn == "pairing" || sc.Scn == "pcr" || sc.Scn == "multiplex" // long executions (alignment / C matcher under instrumentation)
 		for _, w := range ws {
 			for _, b := range bs {
 				if heavy && !verifkit.Thorough() && b != 3 {
